@@ -30,6 +30,18 @@ fn sequences<T: Clone>(alpha: &[T], max_len: usize) -> Vec<Vec<T>> {
 }
 
 /// Memory limits and calls of functions with up to 7 parameters (all properties of the engine).
+/// `run_common` in a child process: a crash there (the code under test reading or writing outside
+/// a memory after a broken bounds check) is reported as a violation with the last module started.
+pub fn run_common_guarded(report: &Report, tier: Tier) {
+    match mc_core::run_part_in_child(&report.property, tier, "structure-common") {
+        Ok(j) => report.merge_embedded("memory and call grid", &j),
+        Err((status, last)) => {
+            report.eval(1);
+            report.violation("engine-crashed-executing-an-accepted-module", json!({"part": "memory-limit and call-arity grid", "last_module_started": last}), json!({"child_status": status}));
+        }
+    }
+}
+
 pub fn run_common(cfg: &Cfg, report: &Report, _tier: Tier) {
     let shape = Shape { ret: Some(VT::I32), hosts: false, extra: 0 };
     let mut st = Stats::default();
@@ -41,6 +53,19 @@ pub fn run_common(cfg: &Cfg, report: &Report, _tier: Tier) {
         vec![Instr::LocalGet(0), Instr::MemoryGrow, Instr::Drop, Instr::MemorySize],
         vec![Instr::LocalGet(0), Instr::MemoryGrow, Instr::Drop, Instr::LocalGet(1), Instr::MemoryGrow, Instr::I32Const(16), Instr::Num(0x74), Instr::MemorySize, Instr::Num(0x6A)],
         vec![Instr::LocalGet(1), Instr::MemoryGrow, Instr::Drop, Instr::LocalGet(0), Instr::I32Const(7), Instr::Store(0x36, 2, 0), Instr::LocalGet(0), Instr::Load(0x28, 2, 0)],
+        // loads of every width with nothing before them (on an empty memory every one must trap)
+        vec![Instr::LocalGet(0), Instr::Load(0x28, 2, 0)],
+        vec![Instr::LocalGet(0), Instr::Load(0x29, 3, 0), Instr::Num(0xA7)],
+        vec![Instr::LocalGet(0), Instr::Load(0x2C, 0, 0)],
+        vec![Instr::LocalGet(0), Instr::Load(0x2E, 1, 0)],
+        vec![Instr::LocalGet(0), Instr::Load(0x2F, 1, 0)],
+        vec![Instr::LocalGet(0), Instr::Load(0x35, 2, 0), Instr::Num(0xA7)],
+        vec![Instr::LocalGet(0), Instr::Load(0x28, 2, 65532)],
+        vec![Instr::LocalGet(1), Instr::MemoryGrow, Instr::Drop, Instr::LocalGet(0), Instr::Load(0x29, 3, 0), Instr::Num(0xA7)],
+        // stores of every width likewise
+        vec![Instr::LocalGet(0), Instr::I32Const(-1), Instr::Store(0x3A, 0, 0), Instr::MemorySize],
+        vec![Instr::LocalGet(0), Instr::I32Const(-1), Instr::Store(0x3B, 1, 0), Instr::MemorySize],
+        vec![Instr::LocalGet(0), Instr::I64Const(-1), Instr::Store(0x37, 3, 0), Instr::MemorySize],
     ];
     let mut cfg_m = cfg.clone();
     cfg_m.args_memory = vec![(0, 0), (1, 0), (1, 1), (2, 1), (3, 0), (-1, 1), (65532, 1), (65533, 0), (131068, 2), (0x10000, 0), (0, 0x10000), (33, 0)];
@@ -51,6 +76,9 @@ pub fn run_common(cfg: &Cfg, report: &Report, _tier: Tier) {
             m.memory = Some((*min, *max));
             m.data = if *min > 0 { vec![(0, vec![1, 2, 3, 4, 5, 6, 7, 8])] } else { vec![] };
             let s = json!({"memory_limits": [min, max]});
+            if mc_core::is_embedded() {
+                eprintln!("CASE {}", json!({"structure": s, "body": crate::ast::body_text(body)}));
+            }
             check_module(&cfg_m, report, &mut st, shape, body, &m, Some(&s));
             n_mem += 1;
         }
